@@ -191,3 +191,27 @@ Fixpoint loop_fuel {S} (fuel : nat) (body : S -> res (S * bool)) (s : S) : res S
 
 (* mio readiness tokens of the server's poll *)
 Inductive evtoken := EvMessage | EvHealthCheck | EvStatusUpdate | EvOther.
+
+(* while c { body } on fuel *)
+Fixpoint while_fuel {S} (fuel : nat) (cond : S -> res bool) (body : S -> res S) (s : S) : res S :=
+  match fuel with
+  | O => Panic site_fuel
+  | S f => obind (cond s) (fun c => if c then obind (body s) (while_fuel f cond body) else Ok s)
+  end.
+
+(* v[i] = x (after v[i] was read: in range) *)
+Fixpoint vec_set_nat {A} (l : list A) (i : nat) (x : A) : list A :=
+  match l, i with
+  | [], _ => []
+  | _ :: r, O => x :: r
+  | y :: r, S j => y :: vec_set_nat r j x
+  end.
+Definition vec_set {A} (l : list A) (i : N) (x : A) : list A := vec_set_nat l (N.to_nat i) x.
+
+(* self.levels[level].pop().unwrap(): the last node of a level, which is removed *)
+Definition pop_level (site : nat) (lv : list (list bytes)) (i : N) : res (bytes * list (list bytes)) :=
+  obind (vec_idx_p site lv i) (fun l =>
+  match rev l with
+  | [] => Panic site
+  | x :: r => Ok (x, vec_set lv i (rev r))
+  end).
